@@ -80,7 +80,11 @@ def _norm(prog: Program, fn: FuncInfo) -> FuncInfo:
 def _covered_at_call_sites(prog: Program, cls: ClassInfo, m: FuncInfo) -> bool:
     """A private, non-anchored helper whose every call site inside the class is spliced into the
     caller's analysis view is decided there (in context), not on its own."""
-    if not m.name.startswith("_") or m.name.startswith("__") or m.name in ANCHOR_NAMES:
+    anc = anchors(prog)
+    if not m.name.startswith("_") or m.name.startswith("__"):
+        return False
+    # anchored is the function that plays the role, not a helper of another class that carries the same name
+    if any(m.node is n for n in anc.nodes) or (m.name in ANCHOR_NAMES and m.name not in anc.names | anc.hints):
         return False
     callers = [c for c in cls.methods.values() if c is not m and m.name in self_calls(c.node)]
     return bool(callers) and all(m.name not in self_calls(_norm(prog, c).node) for c in callers)
@@ -383,7 +387,23 @@ def result_loop(cfg: CFG, qual: str) -> tuple[int, Any, str, str, set[int]]:
     if b is None:
         raise AnalysisError(f"{qual}: the result loop does not iterate over the entries of the task map")
     tasks_map, key, task_var = b
-    recv = u(node_calls(cfg, r, _is_result_call)[0].func.value)  # type: ignore[attr-defined]
+    res_call = node_calls(cfg, r, _is_result_call)[0]
+    recv = u(res_call.func.value)  # type: ignore[attr-defined]
+    if task_var is None and recv.isidentifier() and isinstance(h.ast, ast.For):
+        # `for k in M: t = M[k]; ... t.result()`: a local bound once, by a top-level statement of the loop body
+        # ahead of the read, to the entry of the current key is that entry
+        binds = [s for s in ast.walk(h.ast) if isinstance(s, (ast.Assign, ast.AnnAssign, ast.AugAssign, ast.For, ast.With,
+                                                                  ast.NamedExpr, ast.ExceptHandler))
+                 and (s.name == recv if isinstance(s, ast.ExceptHandler) else any(
+                     isinstance(x, ast.Name) and x.id == recv and isinstance(x.ctx, ast.Store) for x in ast.walk(s)))
+                 and s is not h.ast]
+        top = [i for i, s in enumerate(h.ast.body) if any(x is res_call for x in ast.walk(s))]
+        if len(binds) == 1 and top and binds[0] in h.ast.body[:top[0]] and isinstance(binds[0], (ast.Assign, ast.AnnAssign)) \
+                and binds[0].value is not None and u(binds[0].value) == f"{tasks_map}[{key}]" \
+                and u(binds[0].targets[0] if isinstance(binds[0], ast.Assign) else binds[0].target) == recv \
+                and not any(isinstance(x, ast.Name) and x.id == key and isinstance(x.ctx, ast.Store)
+                            for s in h.ast.body for x in ast.walk(s)):
+            recv = f"{tasks_map}[{key}]"
     if recv != (task_var if task_var is not None else f"{tasks_map}[{key}]"):
         raise AnalysisError(f"{qual}: .result() is not read from the task of the loop entry")
     body = cfg.reachable([m for m, lab in cfg.succ[h.id] if lab == "iter"], avoid=[h.id])
